@@ -6,6 +6,7 @@ Decides by bit-provenance abstract interpretation of the repository's own decode
             the very input bit at that position (so ignored bits survive, prefix byte included, length = 1 + n when fused)
   2 GUARD   the text callback returns text only after the `encoded != recoded` comparison
   3 CLASS   the prefix-rewriting encode override of exchange instructions cannot fire on decoded operands
+  4 EFFECT  decoded instructions share no operand state (template fingerprint; copy.copy is modelled as shallow)
 The selector byte is enumerated, every other operand byte is symbolic: each case covers all values of those bytes.
 """
 from __future__ import annotations
